@@ -637,6 +637,160 @@ fn mode_determinism(_seed: u64, limit: usize) -> Vec<serde_json::Value> {
     fails
 }
 
+// ------------------------------------------------------------------ mode: malformed (C20): near-valid inputs to every decoder / parser: a value or an error, never a panic
+struct Xs(u64);
+impl Xs {
+    fn next(&mut self) -> u64 { self.0 ^= self.0 << 13; self.0 ^= self.0 >> 7; self.0 ^= self.0 << 17; self.0 }
+    fn below(&mut self, n: usize) -> usize { (self.next() % n.max(1) as u64) as usize }
+}
+fn mutate_bytes(rng: &mut Xs, b: &[u8]) -> Vec<u8> {
+    let mut v = b.to_vec();
+    match rng.below(6) {
+        0 => { v.truncate(rng.below(v.len() + 1)); }
+        1 => { if !v.is_empty() { let i = rng.below(v.len()); v[i] = [0x00, 0xff, 0x7f, 0x80][rng.below(4)]; } }
+        2 => { if !v.is_empty() { let i = rng.below(v.len()); v[i] = v[i].wrapping_add(1); } }
+        3 => { let i = rng.below(v.len() + 1); v.insert(i, rng.next() as u8); }
+        4 => { if !v.is_empty() { let i = rng.below(v.len()); v.remove(i); } }
+        _ => { if !v.is_empty() { let i = rng.below(v.len()); let bit = 1u8 << rng.below(8); v[i] ^= bit; } }
+    }
+    v
+}
+fn mutate_text(rng: &mut Xs, t: &str, words: &[&str]) -> String {
+    let cs: Vec<char> = t.chars().collect();
+    let mut v = cs.clone();
+    match rng.below(6) {
+        0 => { v.truncate(rng.below(v.len() + 1)); }
+        1 => { if !v.is_empty() { let i = rng.below(v.len()); v.remove(i); } }
+        2 => { if !v.is_empty() { let i = rng.below(v.len()); let c = v[i]; v.insert(i, c); } }
+        3 => { let i = rng.below(v.len() + 1); let w: Vec<char> = words[rng.below(words.len())].chars().collect(); for (k, c) in w.into_iter().enumerate() { v.insert(i + k, c); } }
+        4 => { if !v.is_empty() { let i = rng.below(v.len()); v[i] = ['(', ')', '[', ']', '{', '}', '"', '\\', '#', '0', '\u{0}', 'é', ' '][rng.below(13)]; } }
+        _ => { // replace one identifier-like token by another word
+            let s: String = v.iter().collect();
+            let toks: Vec<&str> = s.split(|c: char| !(c.is_alphanumeric() || c == '_')).filter(|x| x.len() > 2).collect();
+            if !toks.is_empty() { let t0 = toks[rng.below(toks.len())]; return s.replacen(t0, words[rng.below(words.len())], 1); }
+        }
+    }
+    v.into_iter().collect()
+}
+fn mutate_json(rng: &mut Xs, j: &serde_json::Value, depth: usize) -> serde_json::Value {
+    use serde_json::Value as J;
+    let junk = |rng: &mut Xs| -> J { [J::Null, J::Bool(true), serde_json::json!(0), serde_json::json!(-1), serde_json::json!(""), serde_json::json!("zz"), serde_json::json!([]), serde_json::json!({}), serde_json::json!({"$ref": "#/definitions/Nope"}), serde_json::json!(18446744073709551615u64)][rng.below(10)].clone() };
+    match j {
+        J::Object(m) if !m.is_empty() && depth < 12 => {
+            let keys: Vec<String> = m.keys().cloned().collect();
+            let k = keys[rng.below(keys.len())].clone();
+            let mut m2 = m.clone();
+            match rng.below(4) {
+                0 => { m2.remove(&k); }
+                1 => { m2.insert(k, junk(rng)); }
+                _ => { let sub = mutate_json(rng, &m[&k], depth + 1); m2.insert(k, sub); }
+            }
+            J::Object(m2)
+        }
+        J::Array(a) if !a.is_empty() && depth < 12 => {
+            let i = rng.below(a.len());
+            let mut a2 = a.clone();
+            match rng.below(4) {
+                0 => { a2.remove(i); }
+                1 => { a2[i] = junk(rng); }
+                2 => { let x = a2[i].clone(); a2.push(x); }
+                _ => { a2[i] = mutate_json(rng, &a[i], depth + 1); }
+            }
+            J::Array(a2)
+        }
+        _ => junk(rng),
+    }
+}
+fn mode_malformed(seed: u64, limit: usize) -> Vec<serde_json::Value> {
+    let mut fails = vec![];
+    let mut rng = Xs(0x2545F4914F6CDD1D ^ seed.wrapping_mul(0x9E3779B97F4A7C15) | 1);
+    let uplc_srcs = [
+        "(program 1.1.0 [(lam x [(builtin addInteger) x (con integer 1)]) (con integer 41)])",
+        "(program 1.0.0 (force (delay (con (list (pair integer bytestring)) [(1, #ff), (2, #)]))))",
+        "(program 1.1.0 (case (constr 1 (con data (Constr 1 [I 2, B #ab, List [Map [(I 1, I 2)]]])) (con string \"a\\n\\\"b\")) (lam a a) (lam a (lam b (error)))))",
+        "(program 1.1.0 [(force (builtin ifThenElse)) (con bool True) (con unit ()) (con bls12_381_G1_element 0xc00000000000000000000000000000000000000000000000000000000000000000000000000000000000000000000000))])",
+    ];
+    let words = ["builtin", "foo", "con", "integer", "addInteger", "program", "lam", "delay", "99999999999999999999999999", "bytestring", "data", "Constr", "list", "pair", "error", "case", "constr", "validator", "expect", "when", "is", "fn", "test", "use", "pub", "type", "->", "|>", "..", "#\"", "@\"", "0x"];
+    let mut n = 0usize;
+    // (a) + (b): UPLC text and the flat / CBOR / hex encodings of the programs it denotes
+    for src in uplc_srcs {
+        let prog = uplc::parser::program(src).ok();
+        let encs: Option<(Vec<u8>, Vec<u8>, String)> = prog.as_ref().and_then(|p| { let db = p.clone().to_debruijn().ok()?; Some((db.to_flat().ok()?, db.to_cbor().ok()?, db.to_hex().ok()?)) });
+        for _ in 0..400 {
+            if fails.len() >= limit { break; }
+            n += 1;
+            let t = mutate_text(&mut rng, src, &words);
+            if guarded(|| { let _ = uplc::parser::program(&t); }).is_err() {
+                fails.push(fail("malformed", "the UPLC parser panicked", serde_json::json!({"uplc": t}), "a program or a parse error".into(), "panic".into()));
+            }
+            if let Some((flat, cbor, hexs)) = &encs {
+                let f2 = mutate_bytes(&mut rng, flat);
+                if let Err(p) = guarded(|| { let _ = Program::<DeBruijn>::from_flat(&f2); let _ = Program::<uplc::ast::NamedDeBruijn>::from_flat(&f2); let _ = Program::<uplc::ast::Name>::from_flat(&f2); }) {
+                    fails.push(fail("malformed", "the flat decoder panicked", serde_json::json!({"flat_hex": hexs_of(&f2)}), "a program or an error".into(), format!("panic: {p}")));
+                }
+                let c2 = mutate_bytes(&mut rng, cbor);
+                if let Err(p) = guarded(|| { let mut buf = vec![]; let _ = Program::<DeBruijn>::from_cbor(&c2, &mut buf); }) {
+                    fails.push(fail("malformed", "the CBOR program decoder panicked", serde_json::json!({"cbor_hex": hexs_of(&c2)}), "a program or an error".into(), format!("panic: {p}")));
+                }
+                let h2 = mutate_text(&mut rng, hexs, &["zz", "0", "ff", "g"]);
+                if let Err(p) = guarded(|| { let (mut a, mut b) = (vec![], vec![]); let _ = Program::<DeBruijn>::from_hex(&h2, &mut a, &mut b); }) {
+                    fails.push(fail("malformed", "the hex program decoder panicked", serde_json::json!({"hex": h2}), "a program or an error".into(), format!("panic: {p}")));
+                }
+            }
+        }
+    }
+    // (c) Aiken sources: lexer + parser + formatter
+    let mut aiken_srcs: Vec<String> = vec![];
+    for f in ["lib/alpha.ak", "lib/beta.ak", "validators/one.ak"] {
+        if let Ok(t) = std::fs::read_to_string(std::path::Path::new(env!("CARGO_MANIFEST_DIR")).join("fixtures").join("histories").join(f)) { aiken_srcs.push(t); }
+    }
+    for src in &aiken_srcs {
+        for _ in 0..150 {
+            if fails.len() >= limit { break; }
+            n += 1;
+            let t = mutate_text(&mut rng, src, &words);
+            let r = guarded(|| {
+                if let Ok((module, extra)) = aiken_lang::parser::module(&t, aiken_lang::ast::ModuleKind::Lib) {
+                    let mut out = String::new();
+                    aiken_lang::format::pretty(&mut out, module, extra, &t);
+                }
+            });
+            if let Err(p) = r {
+                fails.push(fail("malformed", "the Aiken parser / formatter panicked", serde_json::json!({"aiken": t}), "a module or diagnostics".into(), format!("panic: {p}")));
+            }
+        }
+    }
+    // (d) blueprint JSON and parameter application
+    if let Ok(txt) = std::fs::read_to_string("/repo/examples/gift_card/plutus.json") {
+        if let Ok(j) = serde_json::from_str::<serde_json::Value>(&txt) {
+            let params = [D::bytestring(vec![1]), D::integer(BigInt::from(1)), D::constr(0, vec![D::bytestring(vec![2]), D::integer(BigInt::from(0))]), D::constr(0, vec![]), D::list(vec![])];
+            for _ in 0..600 {
+                if fails.len() >= limit { break; }
+                n += 1;
+                let mut j2 = mutate_json(&mut rng, &j, 0);
+                if rng.below(3) == 0 { j2 = mutate_json(&mut rng, &j2, 0); }
+                let text = j2.to_string();
+                let r = guarded(|| {
+                    if let Ok(mut bp) = serde_json::from_str::<Blueprint>(&text) {
+                        for p in &params {
+                            let _ = bp.apply_parameter(Some("oneshot"), Some("gift_card"), p);
+                            let _ = bp.apply_parameter(Some("multi"), None, p);
+                            let _ = bp.apply_parameter(None, None, p);
+                        }
+                        let _ = serde_json::to_string(&bp);
+                    }
+                });
+                if let Err(p) = r {
+                    fails.push(fail("malformed", "blueprint loading / parameter application panicked", serde_json::json!({"blueprint_json": text.chars().take(1500).collect::<String>()}), "a blueprint or an error".into(), format!("panic: {p}")));
+                }
+            }
+        }
+    }
+    println!("BOUNDS mode=malformed {n} inputs, seed {seed}: single and double mutations (truncate, delete, duplicate, splice keywords, flip bits/bytes, drop or retype JSON members) of 4 UPLC programs (text, flat, CBOR, hex; three binder forms), 3 Aiken modules (lexer, parser, formatter) and the gift_card blueprint (load, apply_parameter, save); nesting depth as in the originals (no deep-recursion inputs)");
+    fails
+}
+fn hexs_of(b: &[u8]) -> String { b.iter().map(|x| format!("{x:02x}")).collect() }
+
 fn main() {
     let args: Vec<String> = std::env::args().collect();
     let cmd = args.get(1).map(|s| s.as_str()).unwrap_or("");
@@ -649,6 +803,7 @@ fn main() {
         match mode {
             "applyparam" => mode_applyparam(seed, limit),
             "determinism" => mode_determinism(seed, limit),
+            "malformed" => mode_malformed(seed, limit),
             _ => {
                 eprintln!("unknown mode {mode}");
                 std::process::exit(2)
@@ -704,6 +859,7 @@ fn run_mode_all(mode: &str) -> Vec<serde_json::Value> {
     match mode {
         "applyparam" => mode_applyparam(0, 100_000),
         "determinism" => mode_determinism(0, 100_000),
+        "malformed" => mode_malformed(0, 100_000),
         _ => vec![],
     }
 }
